@@ -13,7 +13,7 @@ func init() {
 	Registry["C07"] = c07
 	Metas["C07"] = Meta{Level: "other", NeedCG: true,
 		Technique: "static analysis: dominance of log-before-handle on every input arm, must-pass-through of the flush on all paths of the WAL writer, replay-hygiene ordering rules, identity of the replayed record with the logged one",
-		Explain: "Crash points and byte-level truncation of the log cannot be enumerated statically. Decided: (R1) in receiveRoutine each of the three inputs is written to the WAL before it is handled, and the handled value is the logged one; (R2) WAL.Save/writeHeight flush after every record and a write/flush error is fatal (never silently dropped); the light-mode early return precedes any write; (R3) the height marker is written before the NewHeight record; every step is logged unconditionally by newStep (the only writer of the next height's marker); (R4) replay hygiene: replayMode brackets catchupReplay, the decode error is tested before the record is used, the logged record (with its peer key) is re-handled unchanged, failures return errors instead of panicking, and replay completes before the receive routine starts; (R5) a refused signature during replay is tolerated (shared with C03-R4). (R6) a restart rebuilds LastCommit from the stored seen commit over state.LastValidators and installs it only with +2/3. NOT decided: torn last line, rotation, truncation at arbitrary byte offsets, equality of the restored state with the pre-crash state.",
+		Explain: "Crash points and byte-level truncation of the log cannot be enumerated statically. Decided: (R1) in receiveRoutine each of the three inputs is written to the WAL before it is handled, and the handled value is the logged one; (R2) WAL.Save/writeHeight flush after every record and a write/flush error is fatal (never silently dropped); the light-mode early return precedes any write; (R3) the height marker is written before the NewHeight record; every step is logged unconditionally by newStep (the only writer of the next height's marker); (R4) replay hygiene: replayMode brackets catchupReplay, the decode error is tested before the record is used, the logged record (with its peer key) is re-handled unchanged, failures return errors instead of panicking, and replay completes before the receive routine starts; (R5) a refused signature during replay is tolerated (shared with C03-R4). (R6) a restart rebuilds LastCommit from the stored seen commit over state.LastValidators and installs it only with +2/3. (R7) the WAL reader returns records of any length (growing read). NOT decided: torn last line, rotation, truncation at arbitrary byte offsets, equality of the restored state with the pre-crash state.",
 		Assume: []string{"go-autofile Group.Flush reports a sticky write error", "the signer refuses conflicting signatures (C03)"},
 	}
 }
